@@ -25,6 +25,8 @@ func usage() {
 }
 
 func main() {
+	// go/packages resolves `go` through the process PATH: use the offline go1.26.8 toolchain
+	os.Setenv("PATH", "/opt/veriftools/go1.26.8/bin:"+os.Getenv("PATH"))
 	if len(os.Args) < 2 {
 		usage()
 	}
@@ -79,6 +81,9 @@ func cmdFn(args []string) {
 			bad++
 		}
 		for _, o := range j.Obls {
+			if o.Kind == "known-excl" {
+				continue
+			}
 			if o.Kind == "pre-sat" {
 				if o.Status != "failed" {
 					fmt.Printf("   VACUOUS? %s: %s %s\n", o.Name, o.Status, o.Output)
